@@ -89,3 +89,50 @@ func VerifC07_q_poolSize() { vpC07(4, []int{0, 1}) }
 
 // BOUND: as above with 6 steps
 func VerifC07_t_poolSizeDeep() { vpC07(6, []int{0, 1}) }
+
+
+// BOUND: topologies {0,1}; two deployments app and app2 (replicas 3) sharing pool p1 with a symbolic size 0..3; 0..2 pods of app already scheduled; then the filter (+bind) of the next pod of app runs while the filter of a pod of app2 runs atomically inside any one window right before/after an API-server call or an IPAM call of the first (symbolic window 0..16); the number of IPs under the pool must not exceed the size in force
+// ASSUME: C07: interference granularity = API-server calls and IPAM calls (the plugin reaches the IPAM only through its interface, which the harness decorates); a second activity that would have to wait for a lock the first holds is discarded at that window
+func VerifC07_q_concurrentFilters() {
+	w := vpNewWorld(nondetChoice(2), false)
+	if err := w.configure(); err != nil {
+		return
+	}
+	w.wrapIPAM()
+	w.setDeployment(3)
+	w.setDeployment2(3)
+	size := nondetInt(0, 3)
+	w.setPool("p1", size)
+	w.syncListers()
+	pre := nondetChoice(3)
+	for i := 0; i < pre; i++ {
+		name := vpPodNameOf(vpKindDp, i)
+		w.createPod(vpMakePod(name, "U"+name, vpKindDp, "", "p1", ""))
+		w.syncListers()
+		if nodes, err := w.filter(name, "n1", "n2", "n3"); err == nil && len(nodes) > 0 {
+			_ = w.bind(name, nodes[0])
+		}
+	}
+	a := vpPodNameOf(vpKindDp, pre)
+	b := vpPodNameOf(vpKindDp2, 0)
+	w.createPod(vpMakePod(a, "U"+a, vpKindDp, "", "p1", ""))
+	w.createPod(vpMakePod(b, "U"+b, vpKindDp2, "", "p1", ""))
+	w.syncListers()
+	before := w.poolCount("p1")
+	w.interferer = func() { _, _ = w.filter(b, "n1", "n2", "n3") }
+	w.windowAt = nondetInt(0, 16)
+	_, _ = w.filter(a, "n1", "n2", "n3")
+	if w.interferer != nil {
+		// the second filter did not run inside the first: run it now (sequential order)
+		f := w.interferer
+		w.interferer = nil
+		f()
+	} else {
+		verifReach("filter-inside-filter")
+	}
+	after := w.poolCount("p1")
+	verifReach("both-filtered")
+	verifAssert("C07/pool-size-concurrent", verifOr(after <= size, after <= before), "two overlapping filters of deployments sharing a sized pool brought it above its size")
+	verifAssert("C07/agree-concurrent", w.agree(), "memory and store disagree")
+	verifAssert("C07/no-lock-held", w.noLockHeld(), "a lock is still held")
+}
